@@ -53,8 +53,12 @@ Record hcase := HC {
      new seed), and h_tree lists the URLs of the items of the chain, seed first, the item that
      received the page last *)
   h_pipeline : bool;
-  h_tree : list bytes
+  h_tree : list bytes;
+  (* response headers of the page as sent: Content-Type and Server *)
+  h_ct : bytes;
+  h_server : bytes
 }.
+Definition s3_dispatch (c : hcase) : bool := is_s3 (h_server c) (h_ct c).
 
 (* ---------- lookups *)
 Fixpoint lookup {A} (k : bytes) (l : list (bytes * A)) : option A :=
@@ -105,8 +109,8 @@ Definition m_outlinks (c : hcase) : list bytes :=
 Definition m_post_assets (c : hcase) : list bytes :=
   post_assets (fun _ => []) (fun _ => []) (h_repaired c) (h_cfg c) (h_st c) (page_str c) (h_dom c).
 Definition m_post_outlinks (c : hcase) : list bytes :=
-  post_outlinks (fun _ => None) (tab_resolve c) (h_repaired c) (tab_match c) [] (h_cfg c) (h_st c)
-                (page_str c) (h_dom c).
+  post_outlinks_resp (fun _ => None) (tab_resolve c) (h_repaired c) (tab_match c) [] []
+                     (h_server c) (h_ct c) (h_cfg c) (h_st c) (page_str c) (h_dom c).
 
 Definition agree (exact : bool) (model obs : list bytes) : bool :=
   if exact then set_eq model obs else subset model obs.
@@ -140,7 +144,8 @@ Definition diff_case (c : hcase) : bool :=
   || negb (agree (closed c) (m_assets c) (h_assets c))
   || negb (agree (closed c) (m_outlinks c) (h_outlinks c))
   || (h_html c && negb (agree (closed c) (m_post_assets c) (h_post_assets c)))
-  || negb (agree (closed c && negb (h_sweep c) && h_html c) (m_post_outlinks c) (h_post_outlinks c)).
+  || negb (agree (s3_dispatch c || (closed c && negb (h_sweep c) && h_html c))
+                 (m_post_outlinks c) (h_post_outlinks c)).
 Definition hdiffs (l : list hcase) := bad_idx diff_case l.
 
 (* ---------- monitors: the theorems' predicates on the observed answers *)
@@ -207,7 +212,7 @@ Definition hops_allow (c : hcase) : bool := (p_hops (h_st c) <? c_maxhops (h_cfg
 Definition mon_anchors (c : hcase) : bool :=
   forallb (fun u => negb (pu_anchor u) || pu_excl u || negb (in_force c u)
                     || (mem (anchor_target c u) (h_outlinks c)
-                        && (negb (guards_pass c && hops_allow c)
+                        && (negb (guards_pass c && hops_allow c && negb (s3_dispatch c))
                             || mem (anchor_target c u) (h_post_outlinks c))))
           (purls c).
 
@@ -220,8 +225,9 @@ Definition has_value (v : bytes) (tab : list (bytes * option bytes)) : bool :=
    the postprocessor looks into, asset capture on *)
 Definition asset_due (c : hcase) : bool :=
   negb (has_base (h_dom c)) && guards_pass c && negb (c_noassets (h_cfg c)).
-Definition outlink_due (c : hcase) : bool :=
-  negb (has_base (h_dom c)) && guards_pass c && hops_allow c.
+(* [strict]: the theorem's reading (the outlinks are the HTML extractor's: C07_outlinks_dispatch) *)
+Definition outlink_due (strict : bool) (c : hcase) : bool :=
+  negb (has_base (h_dom c)) && guards_pass c && hops_allow c && negb (strict && s3_dispatch c).
 
 (* [html_only] = the theorem's reading (the child made from this very string normalises to the
    expected URL, in a response handed to the HTML extractor); otherwise the property text's:
@@ -239,7 +245,7 @@ Definition resolved_ok (html_only : bool) (c : hcase) (u : purl) : bool :=
   | None => true
   | Some r =>
     if pu_anchor u
-    then negb (outlink_due c) || has_value (expected c r) (h_norm_outlinks c)
+    then negb (outlink_due html_only c) || has_value (expected c r) (h_norm_outlinks c)
     else negb (asset_due c) || (html_only && negb (h_html c)) || bytes_eqb (pu_raw u) (page_str c)
          || root_excused c r || tree_excused c r
          || (if html_only && negb (h_pipeline c)   (* DedupeItems keeps one child per URL *)
